@@ -66,3 +66,96 @@ Definition decode (e : env) (c : config) (consider : uh_t -> bool) (data : bytes
       end
     end
   end.
+
+(* ---- the partial decoders of the directory modes ---- *)
+Inductive hdrs :=
+| HExc | HBadPH | HBadUH
+| HOk (ph : ph_t) (creator : text) (phj : list (text * json)) (uh : uh_t) (uhj : list (text * json)) (rest : bytes).
+
+(* generatePH + generateUH *)
+Definition decode_headers (e : env) (data : bytes) : hdrs :=
+  match parse_header data with
+  | None => HExc
+  | Some ((id, len, h), rest) =>
+    if negb (id =? SectionID_privateHeader) then HBadPH else
+    match parse_ph_body len h rest with
+    | None => HExc
+    | Some (ph, rest) =>
+      match render_ph e ph with
+      | None => HExc
+      | Some (creator, phj) =>
+        match parse_header rest with
+        | None => HExc
+        | Some ((id2, len2, h2), rest) =>
+          if negb (id2 =? SectionID_userHeader) then HBadUH else
+          match parse_uh_body len2 h2 rest with
+          | None => HExc
+          | Some (uh, rest) => HOk ph creator phj uh (render_uh e creator uh) rest
+          end
+        end
+      end
+    end
+  end.
+
+Inductive part (A : Type) := PExc | PSkip | PGot (a : A).
+Arguments PExc {A}. Arguments PSkip {A}. Arguments PGot {A} a.
+
+(* printPELCount: headers and selection only *)
+Definition decode_count (e : env) (consider : uh_t -> bool) (data : bytes) : part unit :=
+  match decode_headers e data with
+  | HExc => PExc
+  | HBadPH | HBadUH => PSkip
+  | HOk _ _ _ uh _ _ => if consider uh then PGot tt else PSkip
+  end.
+
+(* parsePELSummary: sections are decoded (and discarded) up to and including the primary SRC *)
+Fixpoint summary_src (e : env) (c : config) (creator : text) (n : nat) (data : bytes) : option (option (option text)) :=
+  (* None = out of fuel; Some None = an exception; Some (Some r) = reference code of the primary SRC, if one was met *)
+  match n with
+  | O => Some (Some None)
+  | S k =>
+      match parse_section data with
+      | None => Some None
+      | Some (None, _) => None
+      | Some (Some s, rest) =>
+          match render_section e c creator s with
+          | None => Some None
+          | Some (_, o) =>
+              if sec_id s =? SectionID_primarySRC then
+                match obj_get o (L "Reference Code") with
+                | Some (JStr r) => Some (Some (Some r))
+                | _ => Some None
+                end
+              else summary_src e c creator k rest
+          end
+      end
+  end.
+
+Definition jfield (o : list (text * json)) (k : text) : json := match obj_get o k with Some v => v | None => JNull end.
+
+Definition decode_summary (e : env) (c : config) (consider : uh_t -> bool) (data : bytes) : part (text * json) :=
+  match decode_headers e data with
+  | HExc => PExc
+  | HBadPH | HBadUH => PSkip
+  | HOk ph creator phj uh uhj rest =>
+      if negb (consider uh) then PSkip else
+      match summary_src e c creator (N.to_nat (ph_count ph) - 2) rest with
+      | None | Some None => PExc
+      | Some (Some src) =>
+          PGot (L "0x" ++ hexU 8 (ph_eid ph),
+                JObj ((match src with Some r => [(L "SRC", JStr r)] | None => [] end) ++
+                      [(L "PLID", jfield phj (L "Platform Log Id"));
+                       (L "CreatorID", jfield phj (L "Creator Subsystem"));
+                       (L "Subsystem", jfield uhj (L "Subsystem"));
+                       (L "Commit Time", jfield phj (L "Committed at"));
+                       (L "Sev", jfield uhj (L "Event Severity"));
+                       (L "CompID", jfield phj (L "Created by"))]))
+      end
+  end.
+
+Definition decode_full (e : env) (c : config) (consider : uh_t -> bool) (data : bytes) : part (text * json) :=
+  match decode e c consider data with
+  | OkDoc eid doc => PGot (eid, JObj doc)
+  | Filtered | BadPH | BadUH => PSkip
+  | Reject | OutOfFuel => PExc
+  end.
